@@ -5,6 +5,13 @@ Obligations (preconditions) are *derived from the callee bodies' own assertions*
 body panics when `self.owned` is false requires {"O"}; one that panics when it is true requires
 {"U"}. The analysis is a forward may-analysis over the normal-flow CFG with edge refinement on
 `is_owned()` tests and on the Ok/Err outcome of `?`.
+
+The dataflow fact is a pair (lock state, result tag): the tag remembers, for the one `Result` /
+`ControlFlow` value defined last on the path, which variant it holds (`Ok{..}` / `Err{..}` aggregates,
+`from_residual`, moves, `Try::branch`, `map_err`). A later switch on the discriminant of exactly that local
+follows only the matching arm. This keeps the two exits of a block that computes a Result (an inlined helper's
+`return Err(..)` / `Ok(..)`, `let r = {..}; r?`) apart where they join before the caller's `?`: without it
+the error exit would appear to continue on the success side with the lock state of the failure.
 """
 import re
 from collections import deque
@@ -66,6 +73,28 @@ def derive_preconditions(prog):
     return req
 
 
+def contains_lock(prog, ty, depth=4):
+    """Does a value of type `ty` hold a state::Lock by value: named in the type itself (tuple / generic
+    argument) or, through the ADT table, in a field of a struct/enum mentioned in it?"""
+    if LOCK in ty:
+        return True
+    if depth <= 0:
+        return False
+    for name, a in prog.adts.items():
+        if name in ty and re.search(r"(?<![A-Za-z0-9_:])%s(?![A-Za-z0-9_])" % re.escape(name), ty):
+            for v in a["variants"]:
+                for f in v["fields"]:
+                    if f["ty"] != ty and contains_lock(prog, f["ty"], depth - 1):
+                        return True
+    return False
+
+
+RESULT_ADT = "core::result::Result"
+M_RESIDUAL = re.compile(r"(<.* as )?core::ops::try_trait::FromResidual(<.*>)?>?::from_residual")
+M_BRANCH = re.compile(r"(<.* as )?core::ops::try_trait::Try>?::branch")
+M_MAPERR = re.compile(r"core::result::Result::map_err")
+
+
 class LockTS:
     def __init__(self, prog, body, tracked_locals, entry_state=None, preconds=None, single_object=False):
         """tracked_locals: locals that *are* the lock (type Lock) or a `&mut Lock` to the one
@@ -83,7 +112,8 @@ class LockTS:
         self.entry_state = entry_state
         self.pre = preconds if preconds is not None else derive_preconditions(prog)
         self._alias()
-        self.in_state = {}
+        self.in_state = {}      # bb -> lock states (all tags)
+        self.in_tagged = {}     # bb -> {result tag: lock states}
         self._ev = {}
         self._run()
         self.events = [(bb, kind, st, det) for (bb, kind, det), st in sorted(self._ev.items(), key=lambda x: (x[0][0], x[0][1]))]
@@ -177,88 +207,137 @@ class LockTS:
                 if not d or d[0] != "call" or not call_matches(d[2], r"core::option::Option::(as_mut|as_ref)"):
                     continue
                 chain = ba.ref_chain(op_local(d[2]["args"][0]))
-                if any(b.locals[x].startswith("core::option::Option<") and LOCK in b.locals[x] for x in chain):
+                if any(b.locals[x].startswith("core::option::Option<") and contains_lock(self.prog, b.locals[x]) for x in chain):
                     for s in b.succ(sw):
                         if s != arms.get(1):
                             self.kill_edges.add((sw, s))
         self.pending_result = {}
         while work:
             bb = work.popleft()
-            st = set(self.in_state[bb])
-            blk = b.blocks[bb]
-            esc = self._escapes(blk)
-            t = blk["term"]
-            out_default = set(st)
-            ok_state = err_state = None
-            if esc and not self.single_object:
-                for kind, det in esc:
-                    self._ev[(bb, "escape", det)] = frozenset(st)
-                # object moved away: stop tracking along this path
-                continue
-            if t["t"] == "call" and self.is_recv(t) and call_matches(t, M_ANY):
-                name = [p for p in callee_paths(t) if M_ANY.fullmatch(p)][0]
-                need = self.pre.get(name)
-                self._ev[(bb, "call", name)] = frozenset(st)
-                if need is not None and not st <= {need}:
-                    self._ev[(bb, "precondition", (name, need))] = frozenset(st)
-                if M_TRY.fullmatch(name):
-                    ok_state, err_state = {"U", "O"}, {"U"}
-                elif M_WAIT.fullmatch(name):
-                    ok_state, err_state = {"O"}, {"U"}
-                elif M_UNLOCK.fullmatch(name):
-                    ok_state, err_state = {"U"}, {"O"}
-                elif M_FORCE.fullmatch(name):
-                    ok_state = err_state = {"O"}
-                else:
-                    ok_state = err_state = set(st)
-                out_default = ok_state | err_state
-                if "target" in t:
-                    self.pending_result[t["target"]] = (ok_state, err_state)
-            if t["t"] == "drop":
-                pl = t["place"]
-                if not pl["p"] and pl["l"] in self.tracked and t["ty"] == LOCK and not self.single_object:
-                    self._ev[(bb, "drop", "")] = frozenset(st)
-                    # after the drop the object is gone on this path
-                    continue
-            # successors with refinement
-            if bb in self.sw_isowned:
-                t_t, f_t = self.sw_isowned[bb]
-                self._flow(t_t, st & {"O"}, work)
-                self._flow(f_t, st & {"U"}, work)
-                continue
-            if bb in self.try_of:
-                ct, cont, brk = self.try_of[bb]
-                name = [p for p in callee_paths(ct) if M_ANY.fullmatch(p)][0]
-                if M_TRY.fullmatch(name):
-                    oks, errs = st & {"U", "O"}, st & {"U"}
-                elif M_WAIT.fullmatch(name):
-                    oks, errs = st & {"O"}, st & {"U"}
-                elif M_UNLOCK.fullmatch(name):
-                    oks, errs = st & {"U"}, st & {"O"}
-                else:
-                    oks = errs = st
-                for s in b.succ(bb):
-                    if s == cont:
-                        self._flow(s, oks, work)
-                    elif s == brk:
-                        self._flow(s, errs, work)
-                    else:
-                        self._flow(s, st, work)
-                continue
-            for s in b.succ(bb):
-                if (bb, s) in self.kill_edges:
-                    continue
-                self._flow(s, out_default, work)
+            for tag in list(self.in_tagged.get(bb, {})):
+                self._step(bb, tag, set(self.in_tagged[bb][tag]), work)
 
-    def _flow(self, bb, st, work):
+    def _event(self, key, st):
+        self._ev[key] = frozenset(self._ev.get(key, frozenset()) | st)
+
+    def _tag_after(self, blk, tag):
+        """Result tag (local, 0 = Ok/Continue | 1 = Err/Break) after the statements and the terminator of a block."""
+        for s in blk["stmts"]:
+            if s["s"] != "assign":
+                continue
+            rv = s["rv"]
+            if tag is not None and ((rv["k"] == "ref" and rv.get("mut")) or rv["k"] == "rawptr") and rv["place"]["l"] == tag[0]:
+                tag = None          # may be overwritten through the reference: variant no longer known
+            if s["place"]["p"]:
+                if tag is not None and s["place"]["l"] == tag[0] and "deref" not in s["place"]["p"]:
+                    tag = None
+                continue
+            x = s["place"]["l"]
+            if rv["k"] == "agg" and rv.get("agg") == "adt" and rv.get("adt") == RESULT_ADT and rv.get("variant") in ("Ok", "Err"):
+                tag = (x, 0 if rv["variant"] == "Ok" else 1)
+            elif rv["k"] == "use" and op_place(rv["op"]) is not None and not op_place(rv["op"])["p"] and tag is not None and op_place(rv["op"])["l"] == tag[0]:
+                tag = (x, tag[1])
+            elif tag is not None and tag[0] == x:
+                tag = None
+        t = blk["term"]
+        if t["t"] == "call" and not t["dest"]["p"]:
+            x = t["dest"]["l"]
+            a0 = op_place(t["args"][0]) if t["args"] else None
+            if call_matches(t, M_RESIDUAL) and self.b.locals[x].startswith(RESULT_ADT + "<"):
+                tag = (x, 1)        # (`?` in a function returning Result; an Option's None has the other discriminant)
+            elif (call_matches(t, M_BRANCH) or call_matches(t, M_MAPERR)) and tag is not None and a0 is not None and not a0["p"] and a0["l"] == tag[0]:
+                tag = (x, tag[1])
+            elif tag is not None and tag[0] == x:
+                tag = None
+        return tag
+
+    def _step(self, bb, tag, st, work):
+        b = self.b
+        blk = b.blocks[bb]
+        esc = self._escapes(blk)
+        t = blk["term"]
+        out_default = set(st)
+        ok_state = err_state = None
+        if esc and not self.single_object:
+            for kind, det in esc:
+                self._event((bb, "escape", det), st)
+            # object moved away: stop tracking along this path
+            return
+        if t["t"] == "call" and self.is_recv(t) and call_matches(t, M_ANY):
+            name = [p for p in callee_paths(t) if M_ANY.fullmatch(p)][0]
+            need = self.pre.get(name)
+            self._event((bb, "call", name), st)
+            if need is not None and not st <= {need}:
+                self._event((bb, "precondition", (name, need)), st)
+            if M_TRY.fullmatch(name):
+                ok_state, err_state = {"U", "O"}, {"U"}
+            elif M_WAIT.fullmatch(name):
+                ok_state, err_state = {"O"}, {"U"}
+            elif M_UNLOCK.fullmatch(name):
+                ok_state, err_state = {"U"}, {"O"}
+            elif M_FORCE.fullmatch(name):
+                ok_state = err_state = {"O"}
+            else:
+                ok_state = err_state = set(st)
+            out_default = ok_state | err_state
+            if "target" in t:
+                self.pending_result[t["target"]] = (ok_state, err_state)
+        if t["t"] == "drop":
+            pl = t["place"]
+            if not pl["p"] and pl["l"] in self.tracked and t["ty"] == LOCK and not self.single_object:
+                self._event((bb, "drop", ""), st)
+                # after the drop the object is gone on this path
+                return
+        out_tag = self._tag_after(blk, tag)
+        # successors with refinement
+        if bb in self.sw_isowned:
+            t_t, f_t = self.sw_isowned[bb]
+            self._flow(t_t, st & {"O"}, work, out_tag)
+            self._flow(f_t, st & {"U"}, work, out_tag)
+            return
+        if bb in self.try_of:
+            ct, cont, brk = self.try_of[bb]
+            name = [p for p in callee_paths(ct) if M_ANY.fullmatch(p)][0]
+            if M_TRY.fullmatch(name):
+                oks, errs = st & {"U", "O"}, st & {"U"}
+            elif M_WAIT.fullmatch(name):
+                oks, errs = st & {"O"}, st & {"U"}
+            elif M_UNLOCK.fullmatch(name):
+                oks, errs = st & {"U"}, st & {"O"}
+            else:
+                oks = errs = st
+            for s in b.succ(bb):
+                if s == cont:
+                    self._flow(s, oks, work, out_tag)
+                elif s == brk:
+                    self._flow(s, errs, work, out_tag)
+                else:
+                    self._flow(s, st, work, out_tag)
+            return
+        succs = list(b.succ(bb))
+        if out_tag is not None and t["t"] == "switch":
+            es = self.ba.enum_switch(bb)
+            if es is not None and not es[0]["p"] and es[0]["l"] == out_tag[0] and out_tag[1] in es[1]:
+                # the switched value's variant is known on this path: only that arm is taken
+                succs = [es[1][out_tag[1]]]
+        for s in succs:
+            if (bb, s) in self.kill_edges:
+                continue
+            self._flow(s, out_default, work, out_tag)
+
+    def _flow(self, bb, st, work, tag=None):
         if not st:
             return
-        cur = self.in_state.get(bb)
+        grp = self.in_tagged.setdefault(bb, {})
+        cur = grp.get(tag)
         if cur is None:
-            self.in_state[bb] = set(st)
-            work.append(bb)
+            grp[tag] = set(st)
         elif not st <= cur:
             cur |= st
+        else:
+            return
+        self.in_state.setdefault(bb, set()).update(st)
+        if bb not in work:
             work.append(bb)
 
     def state_at(self, bb):
